@@ -439,6 +439,10 @@ func (e *Engine) checkExit(run *Run, ex *Exit, blk *Block) {
 			e.emitCover(st, fmt.Sprintf("%s/cover:site:return#%d", name, k), "this return site is reachable")
 		}
 	}
+	for _, cl := range blk.All("never-locks") {
+		// always present; overridden by the aggregate of the per-acquisition obligations when there are any
+		e.emitWith(st, fmt.Sprintf("%s/never-locks:%s", name, cl.Label()), "", nil, True, "no acquisition of "+cl.Expr, e.framePos(fr), cl.Props, cl)
+	}
 	e.checkExitLocks(st, fr, blk, false)
 	// functions running under a caller's lock: changes of notify-on-change state must have been broadcast
 	if len(blk.All("holds")) > 0 {
